@@ -174,6 +174,13 @@ func payloadLen(sc *Scenario) int {
 	return 8
 }
 
+// cookieOf: the tunnel cookie of a hostile connection. Drawn from a small set shared by all hostile
+// connections of a run, so that GET and POST halves of different connections do pair (and a
+// second POST with a cookie that is already paired arrives now and then).
+func cookieOf(mu *peers.Mutator) string {
+	return []string{"A", "A", "B", mu.Ent}[mu.Pick("cookie", 4)]
+}
+
 func mkDesc() *description.Session {
 	g := &format.Generic{PayloadTyp: 96, RTPMa: "private/90000"}
 	g.Init() //nolint:errcheck
@@ -264,9 +271,9 @@ func build(tmpl string, scheme string, sess string, idx int, mu *peers.Mutator) 
 	case "response":
 		return []byte("RTSP/1.0 200 OK\r\nCSeq: 1\r\n\r\n")
 	case "http-get":
-		return []byte("GET /stream HTTP/1.1\r\nHost: " + host + "\r\nX-Sessioncookie: cookie" + mu.Ent + "\r\nAccept: application/x-rtsp-tunnelled\r\nContent-Length: 30000\r\n\r\n")
+		return []byte("GET /stream HTTP/1.1\r\nHost: " + host + "\r\nX-Sessioncookie: cookie" + cookieOf(mu) + "\r\nAccept: application/x-rtsp-tunnelled\r\nContent-Length: 30000\r\n\r\n")
 	case "http-post":
-		return []byte("POST /stream HTTP/1.1\r\nHost: " + host + "\r\nX-Sessioncookie: cookie" + mu.Ent + "\r\nContent-Type: application/x-rtsp-tunnelled\r\nContent-Length: 30000\r\n\r\n")
+		return []byte("POST /stream HTTP/1.1\r\nHost: " + host + "\r\nX-Sessioncookie: cookie" + cookieOf(mu) + "\r\nContent-Type: application/x-rtsp-tunnelled\r\nContent-Length: 30000\r\n\r\n")
 	case "b64":
 		inner := marshal(&base.Request{Method: base.Options, URL: u("/stream"), Header: hdr})
 		if mu.Chance("b64garbage", 0.4) {
